@@ -166,5 +166,5 @@ def main(run: Callable[[str, int], dict]) -> None:
             tot = res.get("bounds", {}).get("violation_totals", {}).get(k, len(vs))
             print("  %-55s total=%-7d e.g. %s" % (k, tot, " | ".join(json.dumps(v["input"].get("query"), ensure_ascii=True) for v in vs[:4])))
     else:
-        json.dump(res, sys.stdout, ensure_ascii=True, indent=1)
-        sys.stdout.write("\n")
+        sys.stdout.write(json.dumps(res, ensure_ascii=True) + "\n")  # the JSON, on one line, last line of stdout
+        sys.stdout.flush()
